@@ -64,8 +64,15 @@ class Sched:
         self.case = case
         self.ctx = ctx
         self.rnd = random.Random(case.get("pseed", 0))
-        self.db = RecordingDB()
-        self.db.checkers.append(trace_spec(ctx))
+        self.dictsub = case.get("db") == "dictsub"
+        if self.dictsub:
+            # a dict SUBCLASS overriding the item protocol: no trace events and no injected
+            # write faults there, but every root ever seen must stay readable all the same
+            self.db = hh.PrefixDict()
+            ctx.count("cases_over_a_dict_subclass")
+        else:
+            self.db = RecordingDB()
+            self.db.checkers.append(trace_spec(ctx))
         n = case["ntries"]
         self.tries = [HexaryTrie(self.db) for _ in range(n)]
         self.models = [{} for _ in range(n)]
@@ -208,7 +215,7 @@ class Sched:
                 unit, fault = step[2], step[3]
                 if i in self.open:
                     continue  # this trie has an open batch span; it only takes 'bop' steps
-                if fault:
+                if fault and not self.dictsub:
                     self.with_faults(i, unit)
                 self.models[i] = self.do_unit(i, unit, self.models[i])
                 if unit[0] == "batch":
@@ -389,7 +396,7 @@ def gen_case(rnd, tier):
             steps.append(["unit", 0, ["batch", sub, None], False])
             steps.append(["bigbatch-marker", 0])
     return {"engine": "c04", "ntries": ntries, "pseed": rnd.randrange(1 << 30), "steps": steps,
-            "universe": universe.kind}
+            "universe": universe.kind, "db": "dictsub" if rnd.random() < 0.12 else "recording"}
 
 
 def run_shard(ctx):
